@@ -31,6 +31,7 @@ pub struct Image {
     pub model: Model,
 }
 
+
 /// Build a loose container inside a (nearly sequential) simulated execution.
 pub fn build_image(hooks: &exec::THooks, logical: Logical, dir: &Path, knobs: &[(&'static str, u64)], seed: u64) -> Image {
     let out: Arc<Mutex<Option<Result<gen::Built, String>>>> = Arc::new(Mutex::new(None));
